@@ -89,3 +89,42 @@ def region(g: CFG, t: int, kind: str) -> set[int]:
 
 
 __all__ = ["atoms", "facts_at", "edge_for", "key", "region", "NORMAL"]
+
+
+def expand_test(f, test: ast.AST, depth: int = 2) -> ast.AST:
+    """The test with every local that has exactly one reaching definition (a plain, un-awaited assignment) replaced by
+    the defining expression: `n = len(xs); if n == k` reads as `len(xs) == k`.  Returns a fresh AST (no `_parent` links);
+    names that cannot be resolved stay as they are."""
+    from .dataflow import reaching_defs
+
+    cur = test
+    for _ in range(depth):
+        sub = {}
+        for n in ast.walk(cur):
+            if isinstance(n, ast.Name) and isinstance(n.ctx, ast.Load) and getattr(n, "_parent", None) is not None and n.id not in sub:
+                try:
+                    ds = reaching_defs(f, n.id, n)
+                except Exception:  # noqa: BLE001
+                    continue
+                if len(ds) == 1 and ds[0].kind == "assign" and ds[0].index is None and ds[0].value is not None \
+                        and not any(isinstance(x, (ast.Await, ast.Yield, ast.YieldFrom)) for x in ast.walk(ds[0].value)):
+                    sub[n.id] = ds[0].value
+        if not sub:
+            break
+
+        class T(ast.NodeTransformer):
+            def visit_Name(self, node):
+                if isinstance(node.ctx, ast.Load) and node.id in sub:
+                    return ast.parse(unparse(sub[node.id]), mode="eval").body
+                return node
+
+        new = T().visit(ast.parse(unparse(cur), mode="eval").body)
+        # the substituted expressions refer to original nodes only by text: one more round needs parent links, so stop
+        # unless the caller asked for depth > 1 and the defining expressions were simple
+        return new
+    return ast.parse(unparse(cur), mode="eval").body
+
+
+def test_text(f, node) -> str:
+    """Text of a CFG test node with single-definition temporaries expanded (see expand_test)."""
+    return unparse(expand_test(f, node.ast)) if node.ast is not None else ""
